@@ -3537,6 +3537,16 @@ static Type check_statement_impl(TypeChecker *tc, ASTNode *stmt) {
                 }
             }
             
+            /* A function-typed local carries its declared signature, as a function-typed parameter does:
+             * without it a call through the local was typed int whatever the signature says
+             * (`let f: fn(string) -> string = g` then `let r: string = (f s)` was refused). */
+            if (!type_info && declared_type == TYPE_FUNCTION && stmt->as.let.fn_sig) {
+                type_info = malloc(sizeof(TypeInfo));
+                memset(type_info, 0, sizeof(TypeInfo));
+                type_info->base_type = TYPE_FUNCTION;
+                type_info->fn_sig = stmt->as.let.fn_sig;
+            }
+
             /* Add to environment */
             /* Use declared_type which has been corrected for unions and enums */
             Type env_type = declared_type;
